@@ -26,6 +26,8 @@ func runC14(c *core.Ctx) {
 	c.RuleDoc("R14.6", "in a move, the delete of the old name is conditional on the store of the new one")
 	c.RuleDoc("R14.5", "per-path result slices keep the input's length on the failure path")
 	c.RuleDoc("R14.7", "the error of a run-once (sync.Once) evaluation is memoised in a field, not in a local")
+	c.RuleDoc("R14.10", "a memoised (value, error) pair is handed out together")
+	c.RuleDoc("R14.9", "a function handed a non-nil error returns one, except on the ErrNotExist/ErrExist look-up edges")
 	c.RuleDoc("R14.8", "ErrNotExist is answered only where the operation's own error was found nil")
 	c.RuleDoc("R14.4", "transaction implementations record store errors")
 	for _, p := range c.Progs {
@@ -40,6 +42,7 @@ func runC14(c *core.Ctx) {
 			r14ParallelUse(c, p)
 			r14OnceKeepsError(c, p)
 			r14ErrBeforeNotExist(c, p)
+			r14ErrorParams(c, p)
 		}
 	}
 	c.Floor("R14.1", 4)
@@ -50,6 +53,8 @@ func runC14(c *core.Ctx) {
 	c.Floor("R14.6", 1)
 	c.Floor("R14.7", 2)
 	c.Floor("R14.8", 1)
+	c.Floor("R14.9", 3)
+	c.Floor("R14.10", 1)
 }
 
 func pkgFuncs(p *load.Program, rel string) []*ssa.Function {
@@ -364,6 +369,19 @@ func r14Paired(c *core.Ctx, p *load.Program) {
 					}
 				}
 			})
+			// R14.10: the value field is handed out together with its error field, never with a constant nil
+			if eidx := ssax.ErrorResultIndex(fn.Signature); eidx == 1 && fn.Signature.Results().Len() == 2 {
+				for _, r := range ssax.Returns(fn) {
+					v0 := resolveSpilled(r.Results[0], r)
+					if !isLoadOfNamedField(v0, pr.named, pr.val) {
+						continue
+					}
+					e1 := resolveSpilled(r.Results[1], r)
+					k10 := id + "|returned-with-its-error:" + fname(fn)
+					c.Check(isLoadOfNamedField(e1, pr.named, pr.err), "R14.10", k10, p.Pos(r.Pos()), "the memoised value is returned together with the memoised error",
+						fmt.Sprintf("%s returns %s.%s with an error that is not %s: after a failed load the value is nil and the error is gone — the next operation on the same handle gets (nil, nil) and dereferences it (Read, Write, Truncate panic; Stat reports success)", fname(fn), typeKey(pr.named), pr.val, pr.err))
+				}
+			}
 			if total == 0 {
 				continue
 			}
@@ -995,5 +1013,64 @@ func r14ErrBeforeNotExist(c *core.Ctx, p *load.Program) {
 	}
 	if len(sites) == 0 {
 		c.OK("R14.8", "no-own-not-exist", "", "no function that reads an OpResult answers ErrNotExist on its own: the store's error (which is ErrNotExist for a missing key) is handed on as it is")
+	}
+}
+
+// r14ErrorParams (R14.9): a function of package keyvalue that is handed an error (a classifier such as isMissingDir, a
+// wrapper) and returns one answers non-nil on every path on which the error it was given is non-nil — unless that
+// path passed the true edge of errors.Is(err, ErrNotExist/ErrExist), the look-up idioms. A classifier that answers
+// "missing, go on" for ANY look-up error lets MkdirAll overwrite a record the store merely failed to read.
+func r14ErrorParams(c *core.Ctx, p *load.Program) {
+	n := 0
+	for _, fn := range pkgFuncs(p, "keyvalue") {
+		if fn.Parent() != nil || fn.Blocks == nil {
+			continue
+		}
+		eidx := ssax.ErrorResultIndex(fn.Signature)
+		if eidx < 0 {
+			continue
+		}
+		for _, prm := range fn.Params {
+			if !ssax.IsErrorType(prm.Type()) {
+				continue
+			}
+			n++
+			key := fname(fn) + "|error-parameter-" + prm.Name() + "-not-lost"
+			bad := ""
+			init := ssax.NewPathState()
+			init.SetNil(prm, ssax.NonNil)
+			complete := ssax.EnumPaths(fn, fn.Blocks[0], 0, init, ssax.PathHooks{
+				EvalCond: func(s *ssax.PathState, cond ssa.Value) (bool, bool) {
+					return false, false
+				},
+				Branch: func(s *ssax.PathState, cond ssa.Value, taken bool) {
+					cnd, val := ssax.StripNot(cond, taken)
+					if ev, sent, ok := isErrorsIs(cnd); ok && val && s.Resolve(ev) == ssa.Value(prm) && (sent == "ErrNotExist" || sent == "ErrExist") {
+						s.Counts["accepted"] = 1
+					}
+				},
+				End: func(s *ssax.PathState, last ssa.Instruction) {
+					r, ok := last.(*ssa.Return)
+					if !ok || s.Counts["accepted"] == 1 || bad != "" {
+						return
+					}
+					e := s.Resolve(resolveSpilledOnPath(r.Results[eidx], r, s))
+					if ssax.IsNilConst(e) || s.NilOf(e) == ssax.IsNil {
+						bad = p.Pos(r.Pos())
+					}
+				},
+			})
+			switch {
+			case !complete:
+				c.Unknown("R14.9", key, p.Pos(fn.Pos()), "path enumeration exceeded its cap")
+			case bad != "":
+				c.Bad("R14.9", key, bad, fmt.Sprintf("%s returns a nil error at %s on a path on which the error it was given is non-nil and was not identified as ErrNotExist/ErrExist: a store failure is classified as 'nothing there' — MkdirAll then overwrites the record the store merely failed to read (an existing file loses its contents) and returns nil", fname(fn), bad))
+			default:
+				c.OK("R14.9", key, p.Pos(fn.Pos()), "a non-nil error parameter gives a non-nil result except on the ErrNotExist/ErrExist edges")
+			}
+		}
+	}
+	if n < 3 {
+		c.Hard("anchor: functions of keyvalue with an error parameter and an error result (found %d)", n)
 	}
 }
